@@ -10,6 +10,7 @@ Helper lemmas: `Rustic/Lemmas/Prune.lean`.
 -/
 import Rustic.Lemmas.Prune
 import Rustic.Lemmas.PruneExec
+import Rustic.Lemmas.PruneBridge
 import Rustic.Gen.Constants
 namespace Rustic.Props.C02
 open Rustic.Prune
@@ -318,6 +319,63 @@ theorem recover_brings_back (typed : Bool) (kc : Consts) (o : Opts) (files : Lis
   simp only [List.mem_filterMap]
   exact ⟨p, List.mem_filter.mpr ⟨hp, hreb⟩, by rw [ht]⟩
 
+/-- prune writes and removes pack and index files only. -/
+theorem prune_ops_leave_snapshots (o : Opts) (e : Exec) : (e.ops o).all Repo.Op.noSnap = true := by
+  unfold Exec.ops
+  simp only [List.all_append, List.all_map, Bool.and_eq_true]
+  refine ⟨⟨⟨⟨?_, ?_⟩, ?_⟩, ?_⟩, ?_⟩
+  · simp [Repo.Op.noSnap]
+  · split <;> simp [Repo.Op.noSnap]
+  · split
+    · rfl
+    · simp only [List.all_append, List.all_map, Bool.and_eq_true]
+      constructor
+      · simp [Repo.Op.noSnap]
+      · split <;> simp [Repo.Op.noSnap]
+  · split <;> simp [Repo.Op.noSnap]
+  · simp [Repo.Op.noSnap]
+
+/-- (3') **`prune_preserves_readable`** — the bridge from the prune model to the repository protocol of C03
+(`prune_protocol_safe`, in the generality `Repo.prune_run_safe`): let `r` be a consistent repository (index sound, every
+snapshot readable), let the plan be computed from what `prune_plan` reads off `r` (`Reads`: its index files, the keys its
+snapshots need, its pack listing; marked packs truthful; ids of new files fresh) and be accepted.  Then after **every
+prefix** of the storage operations `prune` executes — new packs, the new index file, removal of the rebuilt index files,
+removal of packs; with `instant_delete` also the early removal of unreferenced packs — the repository is consistent and
+every snapshot is still there and completely readable.  Holds for non-instant prune and for instant prune without
+`early_delete_index` (for which C03 `prune_early_delete_index_unsafe` is the counter-example), for all option sets,
+duplicates, marked packs and limits.  A theorem about the prune model — no comparison of operation lists involved. -/
+theorem prune_preserves_readable (kc : Consts) (o : Opts) (r : Repo.Repo) (files : List IndexFile) (used : List Key)
+    (existing : List (Nat × Nat)) (d : Decided)
+    (hr : Reads r files used existing) (hc : Repo.consistent r = true)
+    (h : plan true kc o files used existing = some d)
+    (hearly : (o.earlyDeleteIndex && o.instantDelete) = false) :
+    ∀ r' ∈ Repo.prefixStates r ((execute true o d).ops o),
+      Repo.consistent r' = true ∧ r'.snaps = r.snaps ∧ ∀ s ∈ r.snaps, Repo.readable r' s = true := by
+  intro r' hr'
+  have hcons := execute_prefix_consistent kc o r files used existing d hr hc h hearly
+    (prune_covers_used_keys true kc o files used existing d h)
+    (needed_packs_exist true kc o files used existing d h) r' hr'
+  have hsn := Repo.snaps_prefixStates _ r (prune_ops_leave_snapshots o _) r' hr'
+  refine ⟨hcons, hsn, fun s hs => ?_⟩
+  exact ((Repo.consistent_iff r').mp hcons).2 s (by rw [hsn]; exact hs)
+
+/-- … in particular the final state: after the whole run every snapshot is readable. -/
+theorem prune_result_readable (kc : Consts) (o : Opts) (r : Repo.Repo) (files : List IndexFile) (used : List Key)
+    (existing : List (Nat × Nat)) (d : Decided)
+    (hr : Reads r files used existing) (hc : Repo.consistent r = true)
+    (h : plan true kc o files used existing = some d)
+    (hearly : (o.earlyDeleteIndex && o.instantDelete) = false) :
+    ∀ s ∈ r.snaps, Repo.readable (Repo.applyAll r ((execute true o d).ops o)) s = true := by
+  have hlast : ∀ (ops : List Repo.Op) (r0 : Repo.Repo), Repo.applyAll r0 ops ∈ Repo.prefixStates r0 ops := by
+    intro ops
+    induction ops with
+    | nil => intro r0; simp [Repo.applyAll, Repo.prefixStates]
+    | cons op ops ih =>
+      intro r0
+      simp only [Repo.applyAll, List.foldl_cons, Repo.prefixStates, List.mem_cons]
+      exact Or.inr (ih (Repo.apply r0 op))
+  exact (prune_preserves_readable kc o r files used existing d hr hc h hearly _ (hlast _ r)).2.2
+
 /-! ### Witnesses (non-vacuity, and the defect fixed by `fix: prune keys used_ids by (blob type, id)`) -/
 
 def wConsts : Consts :=
@@ -352,5 +410,34 @@ example :
            { id := 3, time := some 999999, size := some 97, blobs := [{ tpe := .data, id := 3, offset := 0, length := 20, compressed := true }] }] }]
       [(.data, 1)] [(1, 97), (2, 97), (3, 97)]).map (fun d => d.packs.map (·.todo))
     = some [.recover, .delete, .keepMarked] := by decide +kernel
+
+/-! non-vacuity of `prune_preserves_readable`: a concrete consistent repository — a partly used pack (repacked), an
+unused pack (marked), a fresh marked pack (kept marked), an expired marked pack (deleted) — satisfies all hypotheses,
+and the monitor of C03 confirms the conclusion on it. -/
+def vBlob (id : Nat) : Blob := { tpe := .data, id := id, offset := 0, length := 20, compressed := true }
+def vFiles : List IndexFile :=
+  [{ id := 1,
+     packs := [{ id := 1, time := some 900000, size := some 100, blobs := [vBlob 1, { vBlob 2 with offset := 20 }] },
+               { id := 2, time := some 900000, size := some 100, blobs := [vBlob 3] }],
+     del := [{ id := 3, time := some 999999, size := some 100, blobs := [vBlob 4] },
+             { id := 4, time := some 900000, size := some 100, blobs := [vBlob 5] }] }]
+def vRepo : Repo.Repo :=
+  { packs := [{ id := 1, blobs := [(.data, 1), (.data, 2)] }, { id := 2, blobs := [(.data, 3)] },
+              { id := 3, blobs := [(.data, 4)] }, { id := 4, blobs := [(.data, 5)] }],
+    indexes := vFiles.map toRepoIndex,
+    snaps := [{ id := 1, needs := [(.data, 1)] }] }
+def vOpts : Opts := { wOpts with maxRepack := .unlimited, maxUnused := .size 0 }
+def vExisting : List (Nat × Nat) := [(1, 100), (2, 100), (3, 100), (4, 100)]
+
+theorem vReads : Reads vRepo vFiles [(.data, 1)] vExisting :=
+  { indexes := rfl, indexIds := by decide, used := by decide, existing := by decide, markedTruthful := by decide,
+    freshIndex := by decide, freshPacks := fun t => by cases t <;> decide }
+
+example : Repo.consistent vRepo = true ∧
+    (plan true wConsts vOpts vFiles [(.data, 1)] vExisting).map (fun d => d.packs.map (·.todo))
+      = some [.repack, .markDelete, .keepMarked, .delete] ∧
+    (plan true wConsts vOpts vFiles [(.data, 1)] vExisting).map
+      (fun d => Repo.firstBad vRepo ((execute true vOpts d).ops vOpts)) = some none := by
+  refine ⟨by decide, by decide +kernel, by decide +kernel⟩
 
 end Rustic.Props.C02
